@@ -8,19 +8,11 @@ for l in open(os.path.join(HERE, 'properties.jsonl')):
     TITLES[p['id']] = p['title']
 
 # pid -> (technique, level text, level note, design ref)
-CLAIMED = {
- 'C04': ('Lean 4 theorems over R about a hand-written model of paraxial.py (matrix equality, linearity, Lagrange '
-         'invariant by induction over the surface list) + differential correspondence of the same definitions at '
-         'Float against the implementation',
-         'Proof: ptrace_eq_matrix, ptrace_linear, lagrange_invariant, f2raw_F2_eq_matrix hold for every surface list and '
-         'every launch ray over the reals; the model is tied to /repo on every run by comparing all 15 Paraxial queries '
-         'and both ray arrays (bit-exact in ~99% of values) on the 24 samples and hundreds of generated lenses, and the '
-         'implementation is compared against an independent ABCD-matrix specification as failing-input search.',
-         'Trusted: Lean kernel, Mathlib, axioms propext/Classical.choice/Quot.sound; the hand transcription of '
-         'paraxial.py/standard_surface.py into Model/Parax.lean (checked by correspondence, not proved); float64 ~ R '
-         'within rtol 1e-9. Pupil-conjugacy theorems (EPL/XPL) are checked numerically against the matrix spec only.',
-         'DESIGN.md section 5, C04'),
-}
+CLAIMED = {}
+import glob
+for f in sorted(glob.glob(os.path.join(HERE, 'claims', 'C*.json'))):
+    c = json.load(open(f))
+    CLAIMED[c['property_id']] = (c['technique'], c['level_text'], c['level_note'], c['design_ref'])
 UNDER_CONSTRUCTION = 'check under construction in this session (model + correspondence planned in DESIGN.md section 5); not claimed until green'
 
 checks = []
